@@ -79,6 +79,12 @@ func c14Gen(t *rapid.T) c14Case {
 	if rapid.IntRange(0, 14).Draw(t, "linger") == 0 {
 		c.Linger = rapid.SampledFrom([]int{700, 900}).Draw(t, "lingerms")
 	}
+	if rapid.IntRange(0, 9).Draw(t, "emptyarg") == 0 {
+		// one argument of the command is the empty string
+		at := rapid.IntRange(0, len(c.Ops)).Draw(t, "emptyargat")
+		c.Ops = append(append(append([]string{}, c.Ops[:at]...), ""), c.Ops[at:]...)
+		c.Linger = 0
+	}
 	switch rapid.IntRange(0, 5).Draw(t, "end") {
 	case 0:
 		c.End = ""
@@ -94,6 +100,13 @@ func c14Gen(t *rapid.T) c14Case {
 func c14Expect(c c14Case) (stdout, stderr []byte, exit int, signalled bool, writesAfterClose bool) {
 	outOpen, errOpen := true, true
 	for _, op := range c.Ops {
+		if op == "" {
+			// an empty string is an argument like any other: the helper does not know it, says so and exits 99
+			if errOpen {
+				stderr = append(stderr, []byte("emit: unknown op \n")...)
+			}
+			return stdout, stderr, 99, false, writesAfterClose
+		}
 		parts := strings.SplitN(op, ":", 2)
 		switch parts[0] {
 		case "o", "O", "or", "ou":
